@@ -42,6 +42,10 @@ GOps == {[name |-> "none"], [name |-> "align"], [name |-> "head", n |-> 1], [nam
          [name |-> "apply"], [name |-> "sample_noseed", n |-> 1], [name |-> "sample_noseed_align", n |-> 1]}
 Ops(l) ==
        (IF l.kind = "batch" /\ l.bin = 1 /\ Len(l.imgs) < MaxImgs THEN {[name |-> "add_tomogram"]} ELSE {})
+  \cup (IF l.kind = "batch" /\ l.bin = 1 /\ Len(l.imgs) + 2 <= MaxImgs + 1 /\ NRows(l.tab) <= 6
+        THEN {[name |-> "add_loader", form |-> f, codes |-> Fresh2(l)] : f \in {"single", "batch2"}} ELSE {})
+  \cup (IF l.bin = 1 /\ Len(l.imgs) + 2 <= MaxImgs + 1 /\ NRows(l.tab) <= 6
+        THEN {[name |-> "from_loaders", form |-> f, codes |-> Fresh2(l)] : f \in {"single", "batch2"}} ELSE {})
   \cup {[name |-> "derive", how |-> h] : h \in Hows(l)}
   \cup (IF l.bin = 1 /\ NRows(l.tab) > 0 THEN {[name |-> "observe", via |-> v] : v \in Vias} ELSE {})
   \cup (IF l.bin = 1 THEN {[name |-> "fork", how |-> h] : h \in {"copy", "replace_order", "binning1", "reshape"}} ELSE {})
@@ -75,7 +79,9 @@ View == <<L, T, S, depth, start>>
 
 (* ------------------------------------------------------------ properties *)
 (* every row keeps the image it was registered with: uid 1,2 -> img 0; 3,4 -> img 1; 5,6 -> added ids *)
-RegisteredImg(l, r) == IF l.kind = "single" THEN 0 ELSE IF r.uid \in {1, 2} THEN 0 ELSE IF r.uid \in {3, 4} THEN 1 ELSE ImgOf(l, r)
+RegisteredImg(l, r) == IF \E i \in 1..NRows(start.L.tab) : start.L.tab.rows[i].uid = r.uid
+                       THEN ImgOf(start.L, start.L.tab.rows[CHOOSE i \in 1..NRows(start.L.tab) : start.L.tab.rows[i].uid = r.uid])
+                       ELSE ImgOf(l, r)
 RowAligned == \A i \in 1..NRows(L.tab) : LoadP(L)[i] = [img |-> RegisteredImg(L, L.tab.rows[i]), uid |-> L.tab.rows[i].uid]
 ImagesConsistent == L.kind = "batch" => {ImgOf(L, L.tab.rows[i]) : i \in 1..NRows(L.tab)} \subseteq {L.imgs[i] : i \in 1..Len(L.imgs)}
 GroupsPartition == NRows(L.tab) > 0 => GroupLaw(L.tab, "k")
